@@ -25,9 +25,35 @@ def klein(g, shape, n, r=0.8, rmin=0.05):
     return k
 
 
-def ideal(g, shape, n):
+def ideal(g, shape, n, exact=0.3):
+    """ideal points (Klein coordinates on the unit sphere); a fraction of them EXACTLY on the sphere in floating point (+-e_i), so that
+    (1, k) is an exactly null vector: the measure-zero branch of normalize and friends is explored on every run"""
     a = g.normal(size=tuple(shape) + (n,))
-    return a / np.linalg.norm(a, axis=-1, keepdims=True)
+    a = a / np.linalg.norm(a, axis=-1, keepdims=True)
+    flat = a.reshape(-1, n)
+    for r in range(flat.shape[0]):
+        if g.random() < exact:
+            e = np.zeros(n)
+            e[int(g.integers(0, n))] = float(g.choice([-1.0, 1.0]))
+            if e[0] == 1.0:
+                e[0] = -1.0          # (+e_1 is the point at infinity of the half-space chart: every half-space query is singular there)
+            flat[r] = e
+    return flat.reshape(tuple(shape) + (n,))
+
+
+def same_val(a, b, tol=1e-8):
+    """equal up to tol where finite, and non-finite (inf of the same sign / nan) at exactly the same places"""
+    a, b = np.asarray(a, dtype=float), np.asarray(b, dtype=float)
+    if a.shape != b.shape:
+        return False
+    fa, fb = np.isfinite(a), np.isfinite(b)
+    if not np.array_equal(fa, fb):
+        return False
+    if not np.array_equal(np.isnan(a), np.isnan(b)):
+        return False
+    if np.any(~fa) and not np.array_equal(np.sign(a[~fa & ~np.isnan(a)]), np.sign(b[~fb & ~np.isnan(b)])):
+        return False
+    return bool(np.all(np.abs(a[fa] - b[fa]) <= tol * (1 + np.abs(b[fa]))))
 
 
 def orth(g, n):
@@ -212,14 +238,62 @@ def judge_bad(inp, obs, lr):
 def gen_points(rng, n):
     for c in range(n):
         yield {"op": ["coords", "distance", "origin_to"][c % 3], "shape": rng.choice(SHAPES), "n": rng.choice([1, 2, 2, 3, 4]) if c % 3 != 2 else rng.choice([2, 3, 4]),
-               "seed": rng.randrange(10 ** 9), "ideal": rng.random() < 0.15, "bshape": rng.random() < 0.4}
+               "seed": rng.randrange(10 ** 9), "ideal": rng.random() < 0.15, "bshape": rng.random() < 0.4, "special": rng.random() < 0.35}
 
 
 def run_points(inp):
     g = G(inp["seed"])
     shape, n = tuple(inp["shape"]), inp["n"]
     bad = []
-    if inp["op"] == "coords":
+    def special(kk):
+        """a composite of ordinary points with measure-zero special elements mixed in: exactly ideal points, the origin, repeated points"""
+        flat = kk.reshape(-1, n).copy()
+        idl = ideal(g, (flat.shape[0],), n, exact=0.7)
+        for r in range(flat.shape[0]):
+            c = g.random()
+            if c < 0.25:
+                flat[r] = idl[r]
+            elif c < 0.35:
+                flat[r] = 0.0
+            elif c < 0.45 and r > 0:
+                flat[r] = flat[r - 1]
+        return flat.reshape(kk.shape)
+
+    if inp["op"] == "coords" and inp.get("special"):
+        k = special(klein(g, shape, n, 0.9))
+        for m in MODELS:
+            Pt = H.Point(k.copy(), model="klein")
+            with np.errstate(all="ignore"):
+                c = np.array(Pt.coords(m))
+            if c.shape[:-1] != shape:
+                bad.append({"what": "shape", "model": m, "got": list(c.shape)})
+                continue
+            for idx in np.ndindex(*shape):
+                with np.errstate(all="ignore"):
+                    u = np.array(H.Point(k[idx].copy(), model="klein").coords(m))
+                ok = (rows_proj_eq(c[idx], u, 1e-9) if np.all(np.isfinite(u)) and np.all(np.isfinite(c[idx])) else same_val(c[idx], u)) \
+                    if m in ("projective", "hyperboloid") else same_val(c[idx], u, 1e-9)
+                if not ok:
+                    bad.append({"what": "coords_special", "model": m, "idx": list(idx), "composite": c[idx].tolist(), "unit": u.tolist(),
+                                "expected": "entry of the composite result = result on the unit, also next to exactly ideal / repeated / origin elements"})
+                    break
+    elif inp["op"] == "distance" and inp.get("special"):
+        k1, k2 = special(klein(g, shape, n, 0.9)), special(klein(g, shape, n, 0.9))
+        if len(shape) and g.random() < 0.5:
+            k2.reshape(-1, n)[0] = k1.reshape(-1, n)[0]          # a coinciding pair
+        with np.errstate(all="ignore"):
+            d = np.array(H.Point(k1.copy(), model="klein").distance(H.Point(k2.copy(), model="klein")))
+        if d.shape != shape:
+            bad.append({"what": "shape", "got": list(d.shape)})
+        else:
+            for idx in np.ndindex(*shape):
+                with np.errstate(all="ignore"):
+                    u = np.asarray(H.Point(k1[idx].copy(), model="klein").distance(H.Point(k2[idx].copy(), model="klein"))).reshape(-1)[0]
+                if not same_val(d[idx], u, 1e-7):
+                    bad.append({"what": "distance_special", "idx": list(idx), "composite": float(d[idx]), "unit": float(u),
+                                "expected": "entry of the composite result = result on the unit, also next to exactly ideal / coinciding elements"})
+                    break
+    elif inp["op"] == "coords":
         k = ideal(g, shape, n) if inp["ideal"] else klein(g, shape, n, 0.9)
         for m in MODELS:
             if inp["ideal"] and m in ("hyperboloid", "halfspace"):
@@ -296,7 +370,7 @@ def gen_apply(rng, n):
         else:
             ts = rng.choice(SHAPES[:8])
         yield {"op": "apply", "mode": mode, "kind": kind, "cx": cx, "xshape": xs, "tshape": ts, "n": rng.choice([2, 2, 3]),
-               "seed": rng.randrange(10 ** 9)}
+               "seed": rng.randrange(10 ** 9), "raw": True}
 
 
 def run_apply(inp):
@@ -305,8 +379,16 @@ def run_apply(inp):
     X = mk(kind, g, inp["xshape"], n, cx)
     T = transformations(g, inp["tshape"], n, kind, cx)
     xs, ts = tuple(X.shape), tuple(T.shape)
-    R = T.apply(X, broadcast=mode)
     bad = []
+    if inp.get("raw") and kind == "point":
+        # the same call on a plain array of row vectors (apply wraps the result in a generic object)
+        Rr = T.apply(np.array(X.proj_data), broadcast=mode)
+        Ro = T.apply(X, broadcast=mode)
+        if not hasattr(Rr, "proj_data") or np.asarray(Rr.proj_data).shape != np.asarray(Ro.proj_data).shape \
+                or not rows_proj_eq(Rr.proj_data, Ro.proj_data, 1e-9):
+            bad.append({"what": "raw_array_argument", "expected": "T.apply(array, mode) has the data of T.apply(Point(array), mode)",
+                        "got": list(np.asarray(getattr(Rr, "proj_data", np.zeros(0))).shape), "want": list(np.asarray(Ro.proj_data).shape)})
+    R = T.apply(X, broadcast=mode)
     if type(R) is not type(X):
         bad.append({"what": "type", "got": type(R).__name__, "expected": type(X).__name__})
     if mode == "elementwise":
@@ -569,6 +651,45 @@ def run_struct(inp):
         idx = tuple(int(g.integers(0, d)) for d in shape)
         if not same_unit(X[idx], (), idx, "index_full"):
             pass
+    # derived objects are objects of their own: editing one (item assignment, in-place queries) leaves the ORIGINAL's units and derived data alone
+    if not cx:
+        derived = [("flatten", X.flatten_to_unit()), ("reshape", X.reshape(ns)), ("copy", type(X)(X)), ("index", X[0]), ("iter", list(X)[-1])]
+        if hasattr(X, "get_vertices"):
+            derived.append(("get_vertices", X.get_vertices()))
+        if hasattr(X, "get_endpoints"):
+            derived.append(("get_endpoints", X.get_endpoints()))
+        if kind not in ("transformation",):
+            derived.append(("Point(obj)", (H.Point if isinstance(X, H.HyperbolicObject) else P.Point)(X)))
+        circ0 = None
+        if kind in ("segment", "geodesic") and n == 2:
+            circ0 = [np.array(c) for c in fresh(X).circle_parameters()]
+        for name, D in derived:
+            try:
+                src = np.array(D.proj_data)
+                if tuple(D.shape):
+                    D[0] = type(D)(np.array(src[-1]) * 2.0)      # an object as value
+                    D[0] = np.array(src[-1]) * -1.5              # a raw array as value
+                else:
+                    D[...] = src * 2.5
+                if hasattr(D, "hyperboloid_coords") and kind in ("point", "pair", "polygon", "simplex"):
+                    D.hyperboloid_coords()
+            except Exception as e:
+                bad.append({"what": "derived_edit_raised", "derived": name, "exc": type(e).__name__, "msg": str(e)[:100]})
+                continue
+            if not rows_proj_eq(np.asarray(X.proj_data), pd, 1e-12) if kind != "transformation" else not np.array_equal(np.asarray(X.proj_data), pd):
+                bad.append({"what": "original_changed_by_editing_derived", "derived": name, "block": "proj",
+                            "expected": "the units of the original are unchanged after editing an object derived from it"})
+                break
+            if ad is not None and not aux_proj_eq(kind, np.asarray(X.aux_data), ad, 1e-9):
+                bad.append({"what": "original_changed_by_editing_derived", "derived": name, "block": "aux"})
+                break
+            if ad is not None and not aux_proj_eq(kind, np.asarray(X.aux_data), fresh(X).aux_data, 1e-7):
+                bad.append({"what": "original_aux_stale_after_editing_derived", "derived": name})
+                break
+        if circ0 is not None and not bad:
+            circ1 = [np.array(c) for c in fresh(X).circle_parameters()]
+            if not all(same_val(a, b, 1e-7) for a, b in zip(circ0, circ1)):
+                bad.append({"what": "original_circle_parameters_changed", "expected": "circle parameters of the original unchanged"})
     # stack: Cls([items...]) has the items as its units, in order
     St = type(X)(items)
     if tuple(St.shape) != shape:
